@@ -132,4 +132,6 @@ def headerWriteOrder : List String := ["initials", "program", "time", "dimension
 def headerLineIndices : List Nat := [0, 1, 2]
 /-- to_mol: keywords of `mol.AddConformer(...)` -/
 def addConformerKeywords : List String := ["assignId=True"]
+/-- what the extractor could not find in the current source (must be empty) -/
+def extractorProblems : List String := []
 end BiotiteModel.Gen.C18
